@@ -56,10 +56,20 @@ def sym_runner_module(name):
 # ---------------------------------------------------------------------------
 # z3 helpers
 # ---------------------------------------------------------------------------
+TOUCH = {"sym": False}  # set when a goal is built from symbolic values (for the non-trivial obligation count)
+
+
+def touched():
+    r = TOUCH["sym"]
+    TOUCH["sym"] = False
+    return r
+
+
 def zb(c):
     """python bool / SymBool / ZBool -> z3 Bool"""
     if isinstance(c, bool):
         return z3.BoolVal(c)
+    TOUCH["sym"] = True
     return S.symbool_to_z3(c)
 
 
@@ -67,6 +77,8 @@ def zeq(a, b):
     """z3 formula  a == b  for scales (SR or numbers)"""
     if not isinstance(a, SR) and not isinstance(b, SR):
         return z3.BoolVal(a == b)
+    if (isinstance(a, SR) and not a.is_const()) or (isinstance(b, SR) and not b.is_const()):
+        TOUCH["sym"] = True
     d = (a - b) if isinstance(a, SR) else -(b - a)
     n = d.v.n.reduce()
     if not n.t:
@@ -93,13 +105,14 @@ class Decider:
         self.max_replays = max_replays
         self.nextra = nextra
 
-    def __call__(self, verdict, key, replay, sampler=None, candidates=()):
+    def __call__(self, verdict, key, replay, sampler=None, candidates=(), nontrivial=True):
+        """nontrivial: the goal was built from at least one symbolic input (counted in the evidence)"""
         log = self.log
         if verdict.holds:
-            log.ok(verdict)
+            log.ok(verdict, {"nontrivial": bool(nontrivial)})
             return True
         if key in self.hit or self.replays >= self.max_replays:
-            log.obligations.append({"case": log.case, "what": verdict.what, "status": verdict.status, "time_s": round(verdict.time, 4),
+            log.obligations.append({"case": log.case, "what": verdict.what, "status": verdict.status, "time_s": round(verdict.time, 4), "nontrivial": bool(nontrivial),
                                     "residual_terms": verdict.nterms, "note": "not replayed (same key already reproduced, or replay budget spent)"})
             if key not in self.hit:
                 log.inconclusive.append("%s/%s: solver answered %s; replay budget of the case spent" % (log.case, verdict.what, verdict.status))
@@ -247,8 +260,9 @@ def case_paths(log, shape, rel="<=", free=False, o_spec="generic", t_spec="gener
             W = list(walls)  # the harness' own copy: W[k-4] is the wall of quark k
 
             def dec(goal, what, key):
+                sym = touched()  # the goal (an argument, already evaluated) was built from symbolic scales
                 v = prove_formula(goal, what + " " + tag)
-                decide(v, key, (MOD, "replay_path", kw), sampler=_sampler_free if free else _sampler)
+                decide(v, key, (MOD, "replay_path", kw), sampler=_sampler_free if free else _sampler, nontrivial=sym)
 
             if via_ffns is not None:
                 atlas = m.Atlas.ffns(via_ffns, mu0)
